@@ -159,14 +159,31 @@ class Ctx:
         """an obligation of another property's rule module that this property depends on too, re-labelled: the same rule, evaluated
         once per run (cached), reported under this property's id with the reason it is a necessary condition here"""
         import importlib
+        from . import AnalysisError
+        if self.__dict__.get('_in_shared'):
+            # While a module is evaluated on behalf of another property only its OWN obligations are wanted: the obligations it shares from
+            # third modules are not evaluated (shared obligations always refer to own obligations, so nothing is lost, dependency cycles
+            # between properties -- C01 -> C20 -> C18 -> C01 -- cannot recurse, and the cost stays linear)
+            ph = Ob(new_id, 'shared', f'(not evaluated while sa/rules/{module_name}.py is consulted for another property) {why}')
+            ph.placeholder = True
+            return ph
         cache = self.__dict__.setdefault('_shared', {})
         if module_name not in cache:
-            cache[module_name] = importlib.import_module(f'sa.rules.{module_name}').check(self)
+            self.__dict__['_in_shared'] = True
+            try:
+                cache[module_name] = importlib.import_module(f'sa.rules.{module_name}').check(self)
+            finally:
+                self.__dict__['_in_shared'] = False
         src = [x for x in cache[module_name] if x.id == src_id]
         if not src:
-            from . import AnalysisError
             raise AnalysisError(f'shared obligation {src_id} not produced by sa/rules/{module_name}.py')
-        src = src[0]
+        if getattr(src[0], 'placeholder', False):
+            raise AnalysisError(f'{new_id} refers to {src_id}, which is itself a shared obligation: refer to the module that owns the rule')
+        return self.relabel(src[0], new_id, why)
+
+    def relabel(self, src, new_id, why):
+        """an obligation computed for another property, reported under new_id with the reason it is a necessary condition here"""
+        src_id = src.id
         o = Ob(new_id, src.kind, f'{why} [= {src_id}: {src.text}]')
         o.instances = src.instances
         o.nontrivial = set(src.nontrivial)
